@@ -69,6 +69,20 @@ def cpython_inlining_bug_shape(tree):
             for c in node[2]:
                 if c is not t and any(sub[1] != "none" for sub, _ in scope.walk(c)):
                     return True
+    # second form (seen in the thorough tier, ORIGINAL misbehaves on 3.12.1): a comprehension variable
+    # that is captured by a scope nested in the comprehension, inside a function (or class) that
+    # also uses the same name itself: after the comprehension the function reads the leaked
+    # iteration value instead of its own variable
+    for node, path in scope.walk(tree):
+        if node[0] not in ("func", "class"):
+            continue
+        for t in node[2]:
+            if t[0] != "comp" or t[1] not in ("target", "target_tuple"):
+                continue
+            captured = any(sub is not t and sub[1] != "none" for sub, _ in scope.walk(t))
+            if captured and (node[1] != "none" or any(
+                    c is not t and any(sub[1] != "none" for sub, _ in scope.walk(c)) for c in node[2])):
+                return True
     return False
 
 
